@@ -136,6 +136,7 @@ type Ctrl struct {
 	Target string   `json:"target"`          // component name: MemCtrl, L1, L2, Mem, DRAM, TLB, L2TLB, MMU, AT
 	Cmd    int      `json:"cmd"`             // memcontrolprotocol.Command
 	Addrs  []uint64 `json:"addrs,omitempty"` // Invalidate / Flush address filter (empty = everything)
+	Wait   int      `json:"wait,omitempty"`  // driver cycles to wait after the previous command's acknowledgement
 }
 
 // DriverSpec is the immutable driver configuration (the whole op list).
@@ -148,6 +149,7 @@ type DriverSpec struct {
 	CtrlAfter  []int       `json:"ctrl_after"`
 	CtrlTarget []string    `json:"ctrl_target"`
 	CtrlCmd    []int       `json:"ctrl_cmd"`
+	CtrlWait   []int       `json:"ctrl_wait"`
 	CtrlAddrN  []int       `json:"ctrl_addr_n"` // number of filter addresses of each command ...
 	CtrlAddrs  []uint64    `json:"ctrl_addrs"`  // ... taken consecutively from this flat list
 }
@@ -172,6 +174,7 @@ type DriverState struct {
 	Answered    int            `json:"answered"`
 	CtrlNext    int            `json:"ctrl_next"`
 	CtrlPending uint64         `json:"ctrl_pending"` // ID of the unacknowledged control request, 0 = none
+	CtrlWait    int            `json:"ctrl_wait"`    // cycles left before the next control command may be sent
 	Log         []Resp         `json:"log"`
 }
 
@@ -238,6 +241,9 @@ func (m *driverMW) recvCtrl() bool {
 	st := &d.State
 	if rsp, ok := msg.(memcontrolprotocol.Rsp); ok && rsp.RspTo == st.CtrlPending {
 		st.CtrlPending = 0
+		if st.CtrlNext < len(d.Spec().CtrlWait) {
+			st.CtrlWait = d.Spec().CtrlWait[st.CtrlNext]
+		}
 		ok := uint32(0)
 		if rsp.Success {
 			ok = 1
@@ -257,6 +263,10 @@ func (m *driverMW) sendCtrl() bool {
 	spec := d.Spec()
 	if st.CtrlPending != 0 || st.CtrlNext >= len(spec.CtrlCmd) || st.Answered < spec.CtrlAfter[st.CtrlNext] {
 		return false
+	}
+	if st.CtrlWait > 0 { // keep ticking while the hold time runs down
+		st.CtrlWait--
+		return true
 	}
 	port := d.GetPortByName("Ctrl")
 	if !port.CanSend() {
@@ -360,6 +370,7 @@ func buildDriver(reg modeling.Registrar, c *Config, name string, ops []Op, ctrl 
 		spec.CtrlAfter = append(spec.CtrlAfter, k.After)
 		spec.CtrlTarget = append(spec.CtrlTarget, k.Target)
 		spec.CtrlCmd = append(spec.CtrlCmd, k.Cmd)
+		spec.CtrlWait = append(spec.CtrlWait, k.Wait)
 		spec.CtrlAddrN = append(spec.CtrlAddrN, len(k.Addrs))
 		spec.CtrlAddrs = append(spec.CtrlAddrs, k.Addrs...)
 	}
